@@ -38,7 +38,9 @@ func init() {
 			if p.Cut || len(p.Ret) != 1 {
 				continue
 			}
-			matched := p.hasCond(func(c string) bool { return strings.HasPrefix(c, "(*ruleset.TimeFrameEntry).Match(") && strings.HasSuffix(c, ", dyn:middleware.getCurrentTime())") })
+			matched := p.hasCond(func(c string) bool {
+				return strings.HasPrefix(c, "(*ruleset.TimeFrameEntry).Match(") && strings.HasSuffix(c, ", dyn:middleware.getCurrentTime())")
+			})
 			if matched != (p.Ret[0] == "true") {
 				why = append(why, fmt.Sprintf("some entry matched=%v but allowed=%s", matched, p.Ret[0]))
 			}
@@ -286,10 +288,10 @@ func c04r3(r *R) {
 		return
 	}
 	want := map[string]string{
-		"(*forwarder.HTTPProxy).allowWithinTimeFrame($0)":                              "(builtin len($0.config.AllowTimeFrame) > 0)",
-		"(*forwarder.HTTPProxy).basicAuth($0, $0.config.HTTPServerConfig.BasicAuth)":    "($0.config.HTTPServerConfig.BasicAuth != nil)",
-		"(*forwarder.HTTPProxy).denyLocalhost($0)":                                     "($0.config.ProxyLocalhost == \"deny\")",
-		"(*forwarder.HTTPProxy).denyDomains($0, $0.config.DenyDomains)":                "($0.config.DenyDomains != nil)",
+		"(*forwarder.HTTPProxy).allowWithinTimeFrame($0)":                            "(builtin len($0.config.AllowTimeFrame) > 0)",
+		"(*forwarder.HTTPProxy).basicAuth($0, $0.config.HTTPServerConfig.BasicAuth)": "($0.config.HTTPServerConfig.BasicAuth != nil)",
+		"(*forwarder.HTTPProxy).denyLocalhost($0)":                                   "($0.config.ProxyLocalhost == \"deny\")",
+		"(*forwarder.HTTPProxy).denyDomains($0, $0.config.DenyDomains)":              "($0.config.DenyDomains != nil)",
 	}
 	seen := map[string]bool{}
 	for _, g := range regs {
@@ -525,7 +527,7 @@ func c04r6(r *R) {
 				continue
 			}
 			vals := p.Events[cap].Desc
-			nonEmpty := p.holds("(builtin len("+vals+") > 0)")
+			nonEmpty := p.holds("(builtin len(" + vals + ") > 0)")
 			restored := false
 			for i := mod; i < wr; i++ {
 				if p.Events[i].Kind == "mapupdate" && p.Events[i].Desc == res+".Header[\"Proxy-Authenticate\"] = "+vals {
